@@ -433,6 +433,12 @@ def _geojson_to_shapely(xx: Any) -> base.BaseGeometry:
     if _type == "feature":
         return to_geom(xx["geometry"])
 
+    if _type == "geometrycollection":
+        # no "coordinates" member: members are listed under "geometries"
+        return geometry.GeometryCollection(
+            [_geojson_to_shapely(g) for g in xx.get("geometries", [])]
+        )
+
     return to_geom(xx)
 
 
